@@ -18,7 +18,13 @@ TRUSTED = [
     "primality of generated key factors is checked by a strong-probable-prime test to 12 fixed bases in the driver (prime generation is C09)",
     "AES, HMAC, KDF2/MGF1 and SHA-256 are the Lean definitions of C14; the DRBG model of C15 supplies the OAEP seed / PKCS#1 padding string for "
     "the exact-ciphertext model column",
-    "pairing-based schemes (cp_ibe, cp_bgn, cp_sokaka, cp_shipsi, cp_pbpsi, cp_pcdel*, mpc_pc) are NOT covered in this version",
+    "pairing-based schemes (cp_ibe, cp_bgn, cp_sokaka, cp_pbpsi, cp_pd*/cp_lv* delegated pairing, g1/g2/gt/pc triples of mpc_pc) and cp_shipsi have no "
+    "pairing specification on the Lean side: the oracle evaluates each protocol's own invariant on the implementation's outputs (decrypt(encrypt(m)) = m, "
+    "malleability/truncation behaviour of the IBE stream, both SOK parties' keys equal, recombined triple result = the library's direct computation, "
+    "delegated result = the library's own pc_map or rejection when one helper message is altered, PSI output = the multiset intersection); "
+    "'equal to the value defined by the protocol' is therefore only as strong as the pairing property C04 (class C)",
+    "not covered: BGN / delegated-pairing / PSI message mutations beyond one altered helper message, dynamic-allocation builds, curves other than the six "
+    "256-bit prime curves of the base configuration (binary and Edwards curves are not selectable for ec_* there), RSA signatures (another property)",
 ]
 ASSUMPTIONS = [
     "the share modulus of Shamir sharing / triples is a prime larger than the number of shares (field assumption of the interpolation theorem)",
